@@ -2,7 +2,7 @@ import abc
 import re
 import uuid
 from datetime import date
-from decimal import Decimal
+from decimal import Decimal, InvalidOperation
 from string import Formatter
 from typing import Any, Dict, Generic, List, Optional, Pattern, Sequence, Tuple, TypeVar
 
@@ -182,10 +182,16 @@ class Route(Generic[Interface]):
         match = self.re_pattern.fullmatch(path)
         if match is None:
             return False, {}
-        return True, {
-            name: self.path_convertors[name].to_python(value)
-            for name, value in match.groupdict().items()
-        }
+        try:
+            params = {
+                name: self.path_convertors[name].to_python(value)
+                for name, value in match.groupdict().items()
+            }
+        except (ValueError, InvalidOperation):
+            # The text has the shape of the type but denotes no value
+            # (e.g. "2021-13-45" for a date): the route does not match.
+            return False, {}
+        return True, params
 
 
 @mypyc_attr(allow_interpreted_subclasses=True)
